@@ -223,6 +223,9 @@ type c06Call struct {
 	Panic     string `json:"panic,omitempty"`
 	// uncertain: the call overlapped a wall-clock expiry deadline (interval rule), any outcome accepted
 	Uncertain bool `json:"uncertain,omitempty"`
+	// Spelling: how the code string is written in this call ("" = exactly as generated):
+	// upper, lead-blank, trail-blank, newline, upper-padded
+	Spelling string `json:"code_spelling,omitempty"`
 	// commitAfterExpiry: the call performed a pre-commit storage operation (claim, id
 	// reservation, mapping write, index append) that certainly started after the code's
 	// activation window had ended, so its commit step certainly ran on an expired code
@@ -246,7 +249,7 @@ func (w *c06World) do(c *c06Call) {
 	switch c.Kind {
 	case "activate":
 		m, err := w.nodes[c.Node].svc.ActivateConnectionCode(&ActivateConnectionCodeRequest{
-			Code: w.code.Code, ListenClientID: c.Client, ListenAddress: c.Listen,
+			Code: c06Spell(w.code.Code, c.Spelling), ListenClientID: c.Client, ListenAddress: c.Listen,
 		})
 		if err != nil {
 			c.Err = c06ShortErr(err)
@@ -258,6 +261,13 @@ func (w *c06World) do(c *c06Call) {
 			cp := *m
 			c.ret = &cp
 		}
+	case "list":
+		_, err := w.nodes[c.Node].svc.ListConnectionCodesByTargetClient(w.targetClient)
+		if err != nil {
+			c.Err = c06ShortErr(err)
+		} else {
+			c.OK = true
+		}
 	case "lookup":
 		_, err := w.nodes[c.Node].svc.GetConnectionCode(w.code.Code)
 		if err != nil {
@@ -266,7 +276,7 @@ func (w *c06World) do(c *c06Call) {
 			c.OK = true
 		}
 	case "revoke":
-		err := w.nodes[c.Node].svc.RevokeConnectionCode(w.code.Code, "c06-revoker")
+		err := w.nodes[c.Node].svc.RevokeConnectionCode(c06Spell(w.code.Code, c.Spelling), "c06-revoker")
 		if err != nil {
 			c.Err = c06ShortErr(err)
 		} else {
@@ -276,6 +286,22 @@ func (w *c06World) do(c *c06Call) {
 	c.RetStep = w.clock.Add(1)
 	c.retT = time.Now()
 	c.done = true
+}
+
+func c06Spell(code, spelling string) string {
+	switch spelling {
+	case "upper":
+		return strings.ToUpper(code)
+	case "lead-blank":
+		return " " + code
+	case "trail-blank":
+		return code + " "
+	case "newline":
+		return code + "\n"
+	case "upper-padded":
+		return "\t" + strings.ToUpper(code) + " "
+	}
+	return code
 }
 
 func c06ShortErr(err error) string {
@@ -426,7 +452,12 @@ func c06Judge(w *c06World, calls []*c06Call, sc *c06Scan, run *vk.Run) []c06Find
 	// (2)
 	for _, a := range succ {
 		for _, r := range calls {
-			if r.Kind == "revoke" && r.OK && r.RetStep < a.CallStep {
+			// a revoke acknowledged for the code as generated binds every later activation of the record;
+			// one acknowledged for another spelling binds later activations written the same way
+			if r.Kind == "revoke" && r.OK && r.RetStep < a.CallStep && r.Spelling != "" && r.Spelling != a.Spelling {
+				run.Count("obs_revoke_and_activation_in_different_noncanonical_spellings_not_judged", 1)
+			}
+			if r.Kind == "revoke" && r.OK && r.RetStep < a.CallStep && (r.Spelling == "" || r.Spelling == a.Spelling) {
 				add("C06:activated-after-revoke", fmt.Sprintf("activation %s began (step %d) after revoke %s had returned success (step %d) and returned mapping %s", a.Thread, a.CallStep, r.Thread, r.RetStep, a.MappingID))
 			}
 		}
@@ -594,7 +625,7 @@ type c06Scenario struct {
 
 // the cross-node scenarios again with one hybrid.Storage per node ("hy-" prefix)
 func init() {
-	for _, k := range []string{"2act-cross-node", "2act-same-client", "1act+revoke", "2act+revoke", "3act"} {
+	for _, k := range []string{"2act-cross-node", "2act-same-client", "1act+revoke", "2act+revoke", "3act", "2act+list"} {
 		sc := c06Scenarios[k]
 		sc.Kind = "hy-" + k
 		sc.Backend = "hybrid"
@@ -609,6 +640,7 @@ var c06Scenarios = map[string]c06Scenario{
 	"1act+revoke":      {Kind: "1act+revoke", Nodes: 2, Threads: []c06Thread{{"A", "activate", 0, 30000001}, {"R", "revoke", 1, 0}}},
 	"2act+revoke":      {Kind: "2act+revoke", Nodes: 2, Threads: []c06Thread{{"A", "activate", 0, 30000001}, {"B", "activate", 1, 30000002}, {"R", "revoke", 0, 0}}},
 	"1act":             {Kind: "1act", Nodes: 1, Threads: []c06Thread{{"A", "activate", 0, 30000001}}},
+	"2act+list":        {Kind: "2act+list", Nodes: 2, Threads: []c06Thread{{"A", "activate", 0, 30000001}, {"Lst", "list", 1, 0}, {"B", "activate", 1, 30000002}}},
 	"3act":             {Kind: "3act", Nodes: 2, Threads: []c06Thread{{"A", "activate", 0, 30000001}, {"B", "activate", 1, 30000002}, {"C", "activate", 0, 30000003}}},
 }
 
@@ -777,6 +809,25 @@ func c06RunScheduled(t testing.TB, run *vk.Run, sc c06Scenario, s *vk.Sched, fai
 				}
 			}
 		}
+		// window: a listing of the target client's codes ran strictly inside one activation and
+		// another activation began after it returned
+		for _, l := range calls {
+			if l.Kind != "list" {
+				continue
+			}
+			inside, afterwards := false, false
+			for _, a := range calls {
+				if a.Kind == "activate" && a.CallStep < l.CallStep && l.RetStep < a.RetStep {
+					inside = true
+				}
+				if a.Kind == "activate" && a.CallStep > l.RetStep {
+					afterwards = true
+				}
+			}
+			if inside && afterwards {
+				run.Count("window_list_inside_activation_then_second_activation", 1)
+			}
+		}
 		// whatever happened, a later sequential activator on another node follows: at most once
 		// overall, and never after an acknowledged revoke
 		{
@@ -905,6 +956,7 @@ func TestVerifC06Schedules(t *testing.T) {
 		{"2act-same-client", 1, run.Pick(60, 100000)},
 		{"2act+revoke", 2, run.Pick(1500, 6000)},
 		{"3act", 2, run.Pick(600, 6000)},
+		{"2act+list", run.Pick(1, 2), run.Pick(400, 8000)},
 	}
 	if run.Thorough() {
 		plans = append(plans, plan{"2act-cross-node", 3, 8000}, plan{"2act-cross-node", 4, 6000}, plan{"1act+revoke", 4, 6000})
@@ -928,7 +980,7 @@ func TestVerifC06Schedules(t *testing.T) {
 
 	// (b) seeded random schedules
 	r := run.Rand("random-schedules")
-	kinds := []string{"2act-same-node", "2act-cross-node", "2act+revoke", "3act", "1act+revoke", "2act-cross-node", "2act+revoke", "3act"}
+	kinds := []string{"2act-same-node", "2act-cross-node", "2act+revoke", "3act", "1act+revoke", "2act-cross-node", "2act+revoke", "3act", "2act+list"}
 	n := run.Pick(250, 12000)
 	for i := 0; i < n; i++ {
 		sc := c06Scenarios[kinds[r.Intn(len(kinds))]]
@@ -944,6 +996,7 @@ func TestVerifC06Schedules(t *testing.T) {
 	run.Floor("schedules_overlapping_windows", 50)
 	run.Floor("outcome_exactly_one_activation", 20)
 	run.Floor("dfs_runs_with_preemption", 100)
+	run.Floor("window_list_inside_activation_then_second_activation", 10)
 	if run.Counter("watchdog") > 0 {
 		run.Floor("watchdog_free", 1)
 	}
@@ -1003,7 +1056,42 @@ func TestVerifC06Orders(t *testing.T) {
 			}
 		}
 	}
+	// code spellings: revoke written as X, then activate written as X' (same / second node)
+	spell := []string{"", "upper", "lead-blank", "trail-blank", "newline", "upper-padded"}
+	for _, rs := range spell {
+		for _, as := range spell {
+			for _, cross := range []bool{false, true} {
+				w := c06NewWorld(t, 2, 10*time.Minute)
+				rv := &c06Call{Thread: "R", Kind: "revoke", Node: 0, Spelling: rs}
+				a := &c06Call{Thread: "actA", Kind: "activate", Node: 0, Client: 30000001, Listen: "0.0.0.0:7001", Spelling: as}
+				if cross {
+					a.Node = 1
+				}
+				b := &c06Call{Thread: "actB", Kind: "activate", Node: 1, Client: 30000002, Listen: "0.0.0.0:7002"}
+				calls := []*c06Call{rv, a, b}
+				for _, c := range calls {
+					w.do(c)
+				}
+				run.Eval(1)
+				run.Distinct(fmt.Sprintf("spelling|revoke=%s|activate=%s|cross=%v", rs, as, cross))
+				run.Count("spelling_cases", 1)
+				if rs != "" && rs == as {
+					run.Count("spelling_same_noncanonical_revoke_then_activate_tried", 1)
+				}
+				if rv.OK {
+					run.Count("spelling_revokes_acknowledged", 1)
+				}
+				scan := w.scan()
+				for _, f := range c06Judge(w, calls, scan, run) {
+					run.Violation(f.Sig+"|code-spelling", map[string]any{"revoke_spelling": rs, "activate_spelling": as, "cross_node": cross, "calls": calls, "code_record": scan.CodeBy, "reason": f.Reason})
+				}
+				w.close()
+			}
+		}
+	}
 	run.Exhaustive(true)
+	run.Floor("spelling_same_noncanonical_revoke_then_activate_tried", 10)
+	run.Floor("spelling_revokes_acknowledged", 12)
 	run.Floor("orders_first_valid_activation_succeeded", 30)
 	run.Floor("orders_activation_after_certain_expiry_tried", 20)
 	run.Floor("orders_activation_after_revoke_tried", 20)
@@ -1542,6 +1630,7 @@ func TestVerifC06Hybrid(t *testing.T) {
 		{"hy-2act-same-client", 1, run.Pick(60, 100000)},
 		{"hy-2act+revoke", 2, run.Pick(400, 8000)},
 		{"hy-3act", 2, run.Pick(200, 8000)},
+		{"hy-2act+list", 1, run.Pick(200, 8000)},
 	}
 	for _, p := range plans {
 		sc := c06Scenarios[p.kind]
@@ -1589,6 +1678,7 @@ func TestVerifC06Hybrid(t *testing.T) {
 	}
 	run.Floor("schedules_overlapping_windows", 50)
 	run.Floor("outcome_exactly_one_activation", 20)
+	run.Floor("window_list_inside_activation_then_second_activation", 10)
 	run.Floor("orders_rejected_probe_attempts", 100)
 	run.Floor("orders_activation_after_revoke_tried", 50)
 	run.Floor("orders_first_valid_activation_succeeded", 30)
